@@ -52,6 +52,12 @@ class Roles:
         self.markers = sorted(t_sites[self.flag] - {"__init__"})
         if len(self.refreshers) < 1 or not self.markers:
             raise AnalysisError("cannot identify refresher / dirty-marker of DataModel by role")
+        # the canonical marker is the one other methods call; a mutator that merely sets the flag itself is not a marker
+        called = {x.func.attr for f in c.methods.values() for x in walk_no_nested(f.node)
+                  if isinstance(x, ast.Call) and is_self_attr(x.func) and x.func.attr in self.markers and f.name != x.func.attr}
+        self.inline_markers = sorted(set(self.markers) - called) if called else []
+        if called:
+            self.markers = sorted(called)
         # backing store: root self attribute of the RHS of field assignments in the refresher
         roots: Set[str] = set()
         self.lazy_fields: Set[str] = set()
@@ -224,8 +230,16 @@ def marking_nodes(f: Func, roles: Roles, cfg: CFG, always_marks: Set[str]) -> Se
         st = cfg.stmt.get(n)
         if cfg.kind[n] == "stmt" and isinstance(st, ast.Assign) and any(is_self_attr(t, roles.flag) for t in st.targets) \
                 and is_const(st.value, True):
-            out.add(n)
+            # setting the flag by hand counts only if everything the canonical marker resets is reset here too
+            if f.name in roles.markers or not inline_missing(f, roles):
+                out.add(n)
     return out
+
+
+def inline_missing(f: Func, roles: Roles) -> Set[str]:
+    """cache fields the canonical marker resets eagerly but ``f`` (which sets the flag by hand) does not"""
+    mine = roles._fields_assigned(roles._closure([f.name]))
+    return set(roles.eager) - mine
 
 
 def _param_false_branches(cfg: CFG, param: str) -> Set[int]:
@@ -259,6 +273,9 @@ def run(model: RepoModel, rep, tier: str):
     rep.rule("C16.R5", "GIRBlockViewer index structures are written only while constructing", min_instances=5)
     rep.rule("C16.R6", "the per-column equality index stores what its consumers dereference: row positions when the results are used "
                        "with iloc/slice/_rows, labels when used with loc", min_instances=1)
+    rep.rule("C16.R7", "0 and False are values, not missing data: the emptiness helpers the tables are indexed and queried with decide numbers "
+                       "by math.isnan only -- the falsy test (`not element`) is reached only after an isinstance test that covers int", 2)
+    _r7_zero_is_a_value(model, rep)
 
     # ---- methods that mark on every path (summary fixpoint)
     always_marks: Set[str] = set()
@@ -297,9 +314,13 @@ def run(model: RepoModel, rep, tier: str):
                 rep.holds("C16.R1", key, FILE, cfg.stmt[n].lineno,
                           f"{desc}: every path to exit passes the dirty-marker" + (f" (when {assume} is true)" if assume else ""))
             else:
+                part = inline_missing(f, roles) if f.name in getattr(roles, "inline_markers", []) else set()
                 rep.violation("C16.R1", key, FILE, cfg.stmt[n].lineno,
                               f"{f.qualname}: {desc}, but a path reaches the exit without marking the caches dirty "
-                              f"(self.{roles.markers[0]}() missing)", path=cfg.describe_path(path))
+                              f"(self.{roles.markers[0]}() missing"
+                              + (f"; the method sets self.{roles.flag} by hand but does not reset {sorted(part)}, which the marker resets: "
+                                 f"a write that adds a column leaves the schema / other column indexes stale" if part else "") + ")",
+                              path=cfg.describe_path(path))
 
     # ---- R3
     covered = roles._fields_assigned(roles.marker_closure) | roles._fields_assigned(roles.refresher_closure)
@@ -561,6 +582,39 @@ def _chain_is_container_of_self(node, fld: str) -> bool:
     return is_self_attr(cur, fld)
 
 
+def _r7_zero_is_a_value(model: RepoModel, rep):
+    um = model.module("util/util.py")
+    for fname in ("isna", "is_empty"):
+        f = um.functions.get(fname)
+        if f is None:
+            raise AnalysisError(f"util.{fname} vanished")
+        cfg = cfg_of(f.node)
+        p = f.params[0]
+        falsy = [n for n in cfg.g.nodes if cfg.kind[n] == "test" and isinstance(cfg.stmt[n], ast.If) and isinstance(cfg.stmt[n].test, ast.UnaryOp)
+                 and isinstance(cfg.stmt[n].test.op, ast.Not) and isinstance(cfg.stmt[n].test.operand, ast.Name) and cfg.stmt[n].test.operand.id == p]
+        key = f"util/util.py::{fname}::numbers never reach the falsy test"
+        if not falsy:
+            rep.holds("C16.R7", key, "util/util.py", f.node.lineno, "no falsy test on the element")
+            continue
+        # isinstance(element, (.. int ..)) tests whose taken branch returns
+        num = []
+        for (t, lab), b in cfg.branch_of.items():
+            st = cfg.stmt.get(t)
+            if lab != "F" or not isinstance(st, ast.If) or not (isinstance(st.test, ast.Call) and call_name(st.test) == "isinstance" and len(st.test.args) == 2):
+                continue
+            ty = st.test.args[1]
+            names = {dotted(e) for e in (ty.elts if isinstance(ty, ast.Tuple) else [ty])}
+            if "int" in names and all(isinstance(x, ast.Return) for x in st.body[-1:]):
+                num.append(b)
+        ok = bool(num) and all(any(cfg.dominates(b, fz) for b in num) for fz in falsy)
+        if ok:
+            rep.holds("C16.R7", key, "util/util.py", cfg.stmt[falsy[0]].lineno, "`isinstance(element, (int, float))` returns before `not element`")
+        else:
+            rep.violation("C16.R7", key, "util/util.py", cfg.stmt[falsy[0]].lineno,
+                          f"util.{fname} lets integers fall through to `not {p}`: 0 and False count as missing, so a table row holding 0 is never "
+                          f"entered in the per-column index (a query for 0 returns nothing) and block id / position 0 reads as absent")
+
+
 # ---------------------------------------------------------------- self-test mutants
 def _m_drop_call(method: str, callee: str):
     def mut(src: str) -> str:
@@ -572,6 +626,13 @@ def _m_drop_call(method: str, callee: str):
 
 
 MUTANTS = [
+    ("isna-zero-is-missing", "util/util.py",
+     lambda src: __import__("sa.mutate", fromlist=["x"]).text_replace(src, "def isna(element):\n    if element is None:\n        return True\n    if isinstance(element, (int, float)):", "def isna(element):\n    if element is None:\n        return True\n    if isinstance(element, float):"),
+     "isna::numbers never reach the falsy test"),
+    ("modify-element-partial-invalidation", FILE,
+     lambda src: __import__("sa.mutate", fromlist=["x"]).text_replace(src, "        self._data.loc[row_index, column_name] = value\n        self.set_refresh_flag()",
+                                                                     "        self._data.loc[row_index, column_name] = value\n        self._need_refresh_rows = True\n        self._column_indexer.pop(column_name, None)"),
+     "DataModel.modify_element"),
     # (name, relative file, mutator, substring expected in a VIOLATION key)
     ("modify_row-no-mark", FILE, _m_drop_call("modify_row", "set_refresh_flag"), "DataModel.modify_row"),
     ("modify_element-no-mark", FILE, _m_drop_call("modify_element", "set_refresh_flag"), "DataModel.modify_element"),
